@@ -218,14 +218,38 @@ int main(int argc, char** argv) {
                     last_reply[i].store(v, std::memory_order_release);
                 }
             });
+        // half of the cases: the semaphore callback works the way interrupt handlers usually do - mask everything, service
+        // ONE pending bit, unmask. When more bits are pending the unmasking raises the flag again from inside the callback,
+        // and the API must deliver that interrupt too (a nested callback); otherwise the remaining bits are never announced.
+        const bool cb_one_at_a_time = g.chance(1, 2);
+        if (cb_one_at_a_time)
+            ctx.count("cases_callback_mask_service_unmask");
+        std::atomic<u32> nested_callbacks{0};
+        static thread_local int cb_depth = 0;
         t.SetSemaphoreHandler([&] {
             callbacks.fetch_add(1, std::memory_order_relaxed);
-            u16 s = t.GetSemaphore();
-            t.ClearSemaphore(s);
-            reentrant_calls.fetch_add(2, std::memory_order_relaxed);
-            log_ev({now_ns(), 0, 4, 0, s});
-            echoed.fetch_or(s, std::memory_order_release);
-            sem_echo.fetch_add(1, std::memory_order_release);
+            if (cb_depth)
+                nested_callbacks.fetch_add(1, std::memory_order_relaxed);
+            ++cb_depth;
+            if (cb_one_at_a_time && cb_depth < 20) {
+                t.MaskSemaphore(0xFFFF);
+                u16 s = t.GetSemaphore();
+                u16 one = (u16)(s & (u16)-(s16)s); // lowest pending bit
+                t.ClearSemaphore(one);
+                reentrant_calls.fetch_add(4, std::memory_order_relaxed);
+                log_ev({now_ns(), 0, 4, 0, one});
+                echoed.fetch_or(one, std::memory_order_release);
+                sem_echo.fetch_add(1, std::memory_order_release);
+                t.MaskSemaphore(0);
+            } else {
+                u16 s = t.GetSemaphore();
+                t.ClearSemaphore(s);
+                reentrant_calls.fetch_add(2, std::memory_order_relaxed);
+                log_ev({now_ns(), 0, 4, 0, s});
+                echoed.fetch_or(s, std::memory_order_release);
+                sem_echo.fetch_add(1, std::memory_order_release);
+            }
+            --cb_depth;
         });
 
         tl_log = &host_log;
@@ -515,6 +539,7 @@ int main(int argc, char** argv) {
         ctx.count("host_api_calls", api_calls);
         ctx.count("host_callbacks_on_dsp_thread", callbacks.load());
         ctx.count("reentrant_api_calls_from_callbacks", reentrant_calls.load());
+        ctx.count("nested_semaphore_callbacks", nested_callbacks.load());
         ctx.count("dsp_cycles", cycles.load());
         for (int s = 0; s < Teakra::Verif::YieldSiteCount; ++s)
             ctx.count(fmt("yield_site_%d", s), g_yield_count[s].exchange(0));
